@@ -37,13 +37,14 @@ CHECKS = {
               'server dump (public accessors only). Contexts: S_EXPRESSION (quick) plus query, update-list and initialiser contexts (thorough).'),
     ),
     'C03': dict(
-        engine='oracle-server roundtrip action + Hypothesis + depth-2 enumeration (harness/py/prop_C03.py, gen_query.py)',
-        technique='round-trip property-based testing: parse -> str() -> parse -> str(), canonical trees compared (alpha-normalised binders, bit-exact doubles); operator-pair enumeration; typed query generators for every query form; failures localised to a minimal subtree before matching known findings',
+        engine='oracle-server roundtrip action + Hypothesis + depth-2 enumeration + libFuzzer targets with the round trip inside (harness/py/prop_C03.py, gen_query.py, harness/cpp/fuzz_common.h)',
+        technique='round-trip property-based testing: parse -> str() -> parse -> str(), canonical trees compared (alpha-normalised binders, bit-exact doubles); operator-pair enumeration; typed query generators for every query form; failures localised to a minimal subtree before matching known findings; coverage-guided fuzz feeder with the round-trip oracle inside the target',
         category='exploration',
         text=('For untyped expression trees (all depth-2 operator pairs + random trees) and typed queries of every query form '
               'on three model flavours, the library\'s own string conversion must not throw, its output must be accepted in the '
               'same scope without diagnostics, give a structurally equal tree and print identically again. Inputs that do not '
-              'parse cleanly are outside the domain and counted as filtered.'),
+              'parse cleanly are outside the domain and counted as filtered. A fuzz layer (fz_xml, fz_query with the oracle '
+              'inside) feeds whatever expressions the fuzzer gets accepted; its artifacts are confirmed through the oracle server.'),
         design_ref='DESIGN.md 4/C03',
         note=('Tree equality is decided on the oracle server\'s canonical dump, not on expression_t::equal (which compares binder '
               'symbols by identity). One recorded finding (control: A[p U q] hands out a tree that is not a query by itself) is '
@@ -82,10 +83,12 @@ CHECKS = {
               'child replacement; subst replaces exactly the IDENTIFIER nodes of the symbol (compared with a textual replacement '
               'on the canonical dump), is pure and is the identity for s:=s and for absent symbols; equal is reflexive, '
               'symmetric, transitive, implies equal text and distinguishes every single-node perturbation; every child index '
-              'below get_size() is accessed under ASan. 143 node kinds occur in a quick run.'),
+              'below get_size() is accessed under ASan. 143 node kinds occur in a quick run. type_t::subst is held to the same '
+              'laws (exact / pure / identity) on every (template parameter, frame variable) pair: range bounds, array sizes and '
+              'record fields that mention the parameter under any operator.'),
         design_ref='DESIGN.md 4/C19',
         note=('An under-reported child count is not observable through the public API (over-reporting is, under ASan). '
-              'Types attached to nodes are not part of the substitution comparison.'),
+              'Types attached to expression nodes are not part of the expression substitution comparison; declared types are substituted through type_t::subst and compared separately.'),
     ),
     'C20': dict(
         engine='oracle-server write action + Hypothesis model generator + xml.dom.minidom (harness/py/prop_C20.py)',
@@ -108,7 +111,8 @@ CHECKS = {
               'non-declaring labels) and, for an undeclared identifier, cover exactly the identifier.'),
         design_ref='DESIGN.md 4/C06',
         note=('In declaring blocks only syntax-breaking faults are injected (other edits can be valid declarations that break their '
-              'users). A mutation that yields no error anywhere is not a fault and is skipped (counted). XML input only in this revision.'),
+              'users). A mutation that yields no error anywhere is not a fault and is skipped (counted). The XTA part checks line and '
+              'column against the text (no paths there); its undeclared-identifier fault is restricted to label sections.'),
     ),
     'C07': dict(
         engine='oracle-server (document dump + symbol table + member-access types) + Hypothesis collision-model generator with a scope-stack reference (harness/py/prop_C07.py)',
@@ -118,9 +122,11 @@ CHECKS = {
               'parameter / local in global and template-local functions, nested blocks, iteration binders incl. nested and '
               'brace-less, quantifier binders incl. nested, select binders, instantiation parameter) with pairwise different '
               'bounds. About 35 use sites per model lie before and after each declaration, inside and after each scope, in all '
-              'label kinds, in another template, in instantiation arguments and in queries (unqualified, P1.n, P1.m with argument '
-              'substitution through up to two partial instantiations). Each site must be bound to the declaration the scope-stack '
-              'reference predicts, or be reported unknown when none precedes.'),
+              'label kinds, in another template, in instantiation arguments and in queries (unqualified, P1.n, and P1.m .. P1.ms '
+              'whose declared types mention the template parameter in range bounds, array sizes and struct fields, with argument '
+              'substitution through chains of up to three partial instantiations). Each site must be bound to the declaration the '
+              'scope-stack reference predicts, or be reported unknown when none precedes; no template parameter may survive in '
+              'the type of a qualified member.'),
         design_ref='DESIGN.md 4/C07',
         note=('The reference is the emitter\'s own scope stack (textual order). Dynamic templates and LSC are not generated. '
               'Query sites are judged only when the document itself is error free (queries are typed against a clean document).'),
@@ -131,10 +137,11 @@ CHECKS = {
         category='exploration',
         text=('Every document that a parse leaves behind - after a normal return, after diagnostics, after an exception - is '
               'traversed completely: user-data back pointers of variables (all scopes), functions, locations, branchpoints, '
-              'templates, instances and processes; one source and one target per edge inside its own template; dense numbering; '
+              'templates, instances and processes (a missing symbol is reported, not dereferenced); one source and one target per edge inside its own template; dense numbering; '
               'unbound-first parameter lists with matching type arity and exactly the bound parameters mapped; an own initial '
-              'location when the call was clean. Inputs: all single structural edits of four seed documents, generated models '
-              'clean and after one mutation that forces error recovery (duplicate names of every kind, dangling/foreign '
+              'location when the call was clean. Inputs: all single structural edits of four seed documents, degenerate documents '
+              '(empty templates and process bodies, nameless elements), generated models '
+              'clean and after one of 30 mutations that force error recovery (duplicate and clashing names of every kind incl. branchpoints, dangling/foreign '
               'references, bad instantiations, token faults), XML and XTA, and libFuzzer campaigns with the predicate inside.'),
         design_ref='DESIGN.md 4/C08',
         note=('Trusted: the predicate itself (dump.h) and the public accessors it reads. Crashes while building are C01\'s '
@@ -144,8 +151,9 @@ CHECKS = {
         engine='oracle-server multi-step requests (one process per history, fresh fork per reference) + pair/seed/poison enumeration + Hypothesis sequences (harness/py/prop_C15.py)',
         technique='history-based differential testing: each step of a generated call history executed in one process is compared with the same call made first in a fresh process (return value / exception class, diagnostics with path, line, column, canonical document, verdict); the global position counter is seeded to cross 2^31 and 2^32',
         category='exploration',
-        text=('A pool of 45 parsing steps (all entry points, three builders, both syntaxes, valid / diagnostic / poisoning inputs: '
-              'unterminated comments, exceptions out of the grammar, XML structural errors, missing files, failing imports) is '
+        text=('A pool of 57 parsing steps (all entry points, three builders, both syntaxes, valid / diagnostic / poisoning inputs: '
+              'unterminated comments also through the PrettyPrinter builder, exceptions out of the grammar, XML structural errors, '
+              'missing files, failing imports, calls against a document kept from an earlier step) is '
               'combined into histories: all ordered pairs, every (counter seed, offset, probe) triple, a rich XTA text damaged '
               'at every token position followed by a rich probe, and random histories of length 3..8. The record of every step '
               'inside a history must equal the record of that step executed alone in a fresh process.'),
@@ -245,11 +253,11 @@ CHECKS = {
         engine='oracle-server expression builder + TypeChecker::checkExpression; cell enumeration + Hypothesis (harness/py/prop_C14.py)',
         technique='metamorphic testing (operand swap): acceptance and result-type kind of a op b vs b op a, c ? a : b vs !c ? b : a (bare and inside lvalue / reference-argument contexts), f(A&) with a B variable vs f(B&) with an A variable; complete enumeration of type-class pairs x operators, random representatives',
         category='exploration',
-        text=('Operands are taken from 20 type classes (int, bounded int, bool, double, clock, clock difference, clock '
+        text=('Operands are taken from 26 type classes (int, bounded int also typedef\'d / const / as array element and struct field, bool, double, clock, clock difference, clock '
               'constraint, two scalar sets, three struct types, arrays, channel kinds, strings; variables, constants, literals, '
               'compound expressions), each checked to be well typed alone. For all ordered class pairs and the eleven '
               'commutative operators, for inline-if with negated condition (also inside contexts that need an lvalue or a '
-              'reference argument, with branches of different constness) and for reference parameters of 20 parameter types the '
+              'reference argument, with branches of different constness) and for reference parameters of 27 parameter types the '
               'two operand orders must agree on acceptance and on the kind of the result type.'),
         design_ref='DESIGN.md 4/C14',
         note=('Accepted = checkExpression returns true and no error is recorded. Channel parameters of a different kind than '
@@ -261,7 +269,7 @@ CHECKS = {
         technique='cell enumeration (restricting feature x placement x instantiation style) with an implied-verdict oracle and twins, plus metamorphic relations (never-instantiated template carrying a feature, permutation of independent declarations)',
         category='exploration',
         text=('Every restricting feature of the statement (clock compared with / assigned from / initialised with a floating '
-              'value, clock rate other than 0 or 1, dynamic template, non-broadcast channel, priorities) is placed at every '
+              'value, clock rate other than 0 or 1, dynamic template, non-broadcast channel, priorities incl. one-level and template-local lists) is placed at every '
               'listed placement (conjunct positions, operand orders, all relational operators, guard and invariant, update list '
               'positions, global and local declarations, first/last) and in five ways of entering the system; the verdict for '
               'the affected analysis must be false. The twin without the feature makes each cell attributable. Adding a '
